@@ -25,14 +25,27 @@ ASSUME PrintT("@@UNI " \o ToJson(UExec))
 UCase == WithFaults(UExec, cs.faults)
 Exp(dv) == Response(UCase, cs.doc, cs.op, cs.vars, dv)
 
-Vector ==
+Base ==
   LET e == Exp({})
       k == Exp(KnownDev)
   IN IF e = k THEN [fam |-> cs.fam, doc |-> cs.doc, op |-> cs.op, vars |-> cs.vars, faults |-> cs.faults, exp |-> e]
      ELSE [fam |-> cs.fam, doc |-> cs.doc, op |-> cs.op, vars |-> cs.vars, faults |-> cs.faults, exp |-> e, expK |-> k,
            kdevs |-> {d \in KnownDev : Exp({d}) # e}]
 
+\* mixed graphs (C02): the strategy that must serve each call, from the node's kind and the precedence rule
+Vector ==
+  IF "mix" \in DOMAIN cs
+  THEN Base @@ [mix |-> cs.mix,
+                via |-> LET e == Exp({}) IN [i \in DOMAIN e.calls |-> Via(cs.mix.assign[e.calls[i].node], cs.mix.any)]]
+  ELSE Base
+
 Emit == phase = "case" => PrintT("@@VEC " \o ToJson(Vector))
+\* C02 precedence, as a property of the specification: a Resolver object is never served by the root
+\* resolver or by reflection, and with a root resolver installed reflection is never used
+OraclePrecedence == (phase = "case" /\ "mix" \in DOMAIN cs) =>
+  \A nd \in DOMAIN cs.mix.assign :
+     /\ cs.mix.assign[nd] = "resolver" => Via(cs.mix.assign[nd], cs.mix.any) = "iface"
+     /\ cs.mix.any => Via(cs.mix.assign[nd], cs.mix.any) # "refl"
 
 \* ---- properties of the oracle (checked by TLC on every enumerated case) ----
 \* every error addresses a position: its path is non-empty unless the whole request was refused
